@@ -181,17 +181,22 @@ pub fn minimise(prop: &Prop, case: &Case, rule: &str, known: &Known, want_known:
             if chunk > 1 { chunk /= 2; }
             if t0.elapsed() > budget { break; }
         }
-        // options
+        // options (an option present in both option vectors of a differential case is removed from both,
+        // so the two vectors keep differing only in what the generator made them differ in)
         let mut ai = 0;
         while ai < best.script.args.len() {
             let mut c = best.clone();
-            c.script.args.remove(ai);
+            let arg = c.script.args.remove(ai);
+            if let Some(b) = &mut c.args_b {
+                if let Some(pos) = b.iter().position(|x| *x == arg) { b.remove(pos); }
+            }
             if ok(&c) { best = c; progress = true; } else { ai += 1; }
         }
         if let Some(b) = best.args_b.clone() {
             let mut ai = 0;
             let mut cur = b;
             while ai < cur.len() {
+                if best.script.args.contains(&cur[ai]) { ai += 1; continue; }
                 let mut nb = cur.clone();
                 nb.remove(ai);
                 let mut c = best.clone();
@@ -200,6 +205,7 @@ pub fn minimise(prop: &Prop, case: &Case, rule: &str, known: &Known, want_known:
             }
         }
         if best.script.log_level != "off" { let mut c = best.clone(); c.script.log_level = "off".into(); if ok(&c) { best = c; progress = true; } }
+        if best.log_level_b.as_deref().map(|l| l != "off").unwrap_or(false) { let mut c = best.clone(); c.log_level_b = Some("off".into()); if ok(&c) { best = c; progress = true; } }
         if best.script.tick_us != 0 { let mut c = best.clone(); c.script.tick_us = 0; if ok(&c) { best = c; progress = true; } }
         // times: 0, else whole seconds
         for (ci, oi) in all_ops(&best) {
